@@ -38,8 +38,8 @@ var (
 
 type bwFields struct {
 	cache, cacheLen, sinkTag, sinkRef string
-	tCache, tCacheLen             *types.Var
-	st                            types.Type
+	tCache, tCacheLen                 *types.Var
+	st                                types.Type
 }
 
 func (r *Run) bwStruct(ptrT types.Type) (types.Type, *types.Struct) {
